@@ -39,10 +39,18 @@ def _make_symbols_map(
 def deserialize_expr(expr_str, symbol_names):
     symbols_map = _make_symbols_map(symbol_names)
     expr = sympy.sympify(expr_str, locals=symbols_map)
-    if isinstance(expr, sympy.Float):
+    if expr.is_number and expr.atoms(sympy.Float):
         # Parsing decimal text at sympy's text-derived precision and rounding to a
         # double afterwards can be off by one ulp; go through the double directly.
-        return sympy.Float(float(expr_str))
+        # The text of a plain Python number is a float or a complex like "(1.5+2.25j)".
+        try:
+            value = complex(expr_str)
+        except ValueError:
+            return expr
+        if isinstance(expr, sympy.Float):
+            return sympy.Float(value.real)
+        if expr.has(sympy.I):
+            return sympy.Float(value.real) + sympy.Float(value.imag) * sympy.I
     return expr
 
 
